@@ -16,9 +16,13 @@ SCHEMA = [
     o_func("include", "include"), o_func("fn"), o_func("nest", "nest"), o_func("nestfree", "nestfree"), o_list("int", "nl", None, 16), o_int("dep", 1, 512), o_list("str", "depl", "{x}", 512 | 1024),
     # sacrificial options: only aborting texts mention them; the comparison ignores them
     o_int("zi", 0), o_float("zf", "0"), o_str("zs", "z"), o_list("str", "zl", None),
+    # a section whose instances can never be created: one of its defaults does not parse
+    o_sec("zsec", [o_int("k", 1), o_list("int", "bad", "{1, 2")], F_MULTI),
 ]
 HAND["c08"] = SCHEMA
-SACRIFICIAL = {"zi", "zf", "zs", "zl"}
+SACRIFICIAL = {"zi", "zf", "zs", "zl", "zsec"}
+# an option table cfg_init() refuses (a default that does not parse)
+BAD_SCHEMA = [o_int("a", 1), o_list("str", "l", "{a, b"), o_int("dep", 1, 512)]
 
 EVENTS = [
     ("accepted", "parse", "a = 2\nl += 3\nsec t { x = 1 }\n"),
@@ -56,7 +60,11 @@ EVENTS = [
     ("reinit", "reinit", None),
     ("switch", "switch", None),
     ("free-other", "free-other", None),
+    # (the events below take part in all histories of length <= 2 and in the random ones, not in the exhaustive length 3)
+    ("refused-section-default", "abort", "zsec { }\n"),
+    ("refused-cfg_init", "abort-init", None),
 ]
+CORE = 35
 PROBES = [
     "a = 0x10 # c\nl = {4, 5,} // d\n/* e */ s = 'sq' f = 1.5\nsec \"t t\" { y = ${HOME:-h} }\nfn(a, \"b\")\nl += 6\n",
     "include(\"c08_deep0.conf\")\n",
@@ -93,10 +101,10 @@ class C08:
     id = "C08"
     level = "exploration"
     variants = ("asan",)
-    rule = ("all histories of length <= 3 over %d events (thorough adds 60000 random histories of length 3-12) (two accepted parses; parses ending inside "
+    rule = ("all histories of length <= 3 over %d events (the last two only up to length 2) (thorough adds 60000 random histories of length 3-12) (two accepted parses; parses ending inside "
             "\"...\", '...', /*...; bad escape; integer / float out of range; error inside an included file; self-including "
             "file; missing include; include of a file ending inside a string; unknown option; backslash as last byte; ends inside a function call / list / title; "
-            "failing streams; an include resolved through the context's own search path; free + "
+            "failing streams; an include resolved through the context's own search path; a section instance refused because one of its defaults does not parse; a refused cfg_init(); free + "
             "re-init; switch between two live contexts; free of the other context) followed by %d probes (every token kind, "
             "10-deep include chain, LONG_MAX, texts ending in each quoting state, a failing and a plain text); differential "
             "oracle: the same history with every aborting parse removed, run in a fresh process, must give identical return "
@@ -112,6 +120,7 @@ class C08:
         base = os.path.join(fx, "c08")
         s = Script()
         emit_schema(s, 0, SCHEMA)
+        emit_schema(s, 1, BAD_SCHEMA)
         s.add("mkdir", hx(base))
         s.add("cwd", hx(base))
         s.add("env", hx("HOME"), hx("/home/x"))
@@ -143,6 +152,8 @@ class C08:
                 ip = s.add("parse_buf", cur, hx(text))
                 if kind == "parse":
                     obs.append((name, ip, s.add("dump", cur)))
+            elif kind == "abort-init":
+                real_add("init", 3, 1, 0)       # fails: no context
             elif kind == "abort-fail":
                 if not alive[cur]:
                     s.add("init", cur, 0, 0)
@@ -275,14 +286,14 @@ class C08:
         if "nested" in case:
             return self.check_nested(case, get_ex)
         events = [EVENTS[k] for k in case["history"]]
-        ref = [e for e in events if e[1] not in ("abort", "abort-fail")]
+        ref = [e for e in events if e[1] not in ("abort", "abort-fail", "abort-init")]
         s1, o1, a1 = self.script(events)
         cur1 = self.last_cur
         s2, o2, a2 = self.script(ref)
         r1 = get_ex("asan", 10).run(s1)
         r2 = get_ex("asan", 10).run(s2)
         names = [e[0] for e in events]
-        aborts = [e[0] for e in events if e[1] in ("abort", "abort-fail")]
+        aborts = [e[0] for e in events if e[1] in ("abort", "abort-fail", "abort-init")]
         cl = ["len%d" % len(events)] + ["abort/" + a for a in aborts]
         nt = bool(aborts)
         sample = {"history": names}
@@ -337,7 +348,7 @@ class C08:
         depth = 3      # (both tiers: 35 events make depth 4 about 1.5 million histories; thorough adds long random histories instead)
         cases = []
         for d in range(0, depth + 1):
-            for h in itertools.product(range(len(EVENTS)), repeat=d):
+            for h in itertools.product(range(len(EVENTS) if d <= 2 else CORE), repeat=d):
                 cases.append({"history": list(h)})
         r.run_cases([{"nested": k} for k in range(len(self.NESTED))], chunksize=1)
         r.run_cases(cases, chunksize=20)
